@@ -32,8 +32,68 @@ func implPass(raw json.RawMessage) (any, error) {
 
 var passOpts = world.GenOpts{InterPod: 0.15, NodeAffinity: 0.45, Existing: 0.7, Limits: 0.2}
 
+// genExisting: one node (any lifecycle stage, possibly unmanaged or deleting) with bound pods, daemonsets, and ONE pending
+// pod without inter-pod constraints; every NodePool has a CPU limit of 0 so that no new capacity can be opened.
+func genExisting(r *rand.Rand, t core.Tier) any {
+	o := world.GenOpts{InterPod: 0, NodeAffinity: 0.6, Existing: 1.0}
+	its := world.GenITs(r, o)
+	pools := world.GenPools(r, its, o)
+	zero := int64(0)
+	for i := range pools {
+		pools[i].LimitCPU = &zero
+	}
+	nodes := world.GenNodes(r, its, pools, o)
+	nodes = nodes[:1]
+	for i := range nodes[0].Pods {
+		nodes[0].Pods[i].Affinity, nodes[0].Pods[i].Spreads = nil, nil
+	}
+	s := &world.Scenario{ITs: its, Pools: pools, Nodes: nodes, DaemonSets: world.GenDaemonSets(r, its), IgnorePrefs: r.Float64() < 0.25, Parallelism: 1}
+	p := world.GenPod(r, "pod-0", its, pools, o)
+	// bias the pod towards the node: often pick constraints from the node's own labels
+	if r.Float64() < 0.5 {
+		p.NodeSelector = nil
+	}
+	if r.Float64() < 0.3 {
+		p.NodeSelector = map[string]string{"topology.kubernetes.io/zone": nodes[0].Zone}
+	}
+	if r.Float64() < 0.4 {
+		p.CPU = int64(100 * (1 + r.IntN(8)))
+	}
+	world.FixExprs(&p)
+	s.Pods = []world.Pod{p}
+	if s.DaemonSets == nil {
+		s.DaemonSets = []world.DaemonSet{}
+	}
+	return s
+}
+
 func Ops() []*core.Op {
 	return []*core.Op{
+		{
+			Name: "c01.existing",
+			Doc:  "ExistingNode.CanAdd + relaxation loop through the real scheduler: one node (claim / unregistered / registered / initialized / unmanaged / deleting, with bound pods and daemonsets), one pod, no new capacity possible; model = tryExisting over viewNode, spec = admissibility of the real placement",
+			N:    func(t core.Tier) int { return map[core.Tier]int{core.Quick: 1500, core.Thorough: 30000}[t] },
+			Gen:  genExisting,
+			Impl: implPass,
+			Rule: "non-trivial = the pod was placed on the node",
+			Nontrivial: func(raw json.RawMessage, impl any) bool {
+				m, _ := impl.(map[string]any)
+				e, _ := m["existing"].([]any)
+				return len(e) > 0
+			},
+			Labels: func(raw json.RawMessage, impl any) []string {
+				var s world.Scenario
+				json.Unmarshal(raw, &s)
+				m, _ := impl.(map[string]any)
+				e, _ := m["existing"].([]any)
+				l := []string{fmt.Sprintf("placed=%v", len(e) > 0)}
+				if len(s.Nodes) > 0 {
+					l = append(l, "stage="+s.Nodes[0].Stage, fmt.Sprintf("managed=%v", s.Nodes[0].Pool != ""), fmt.Sprintf("deleting=%v", s.Nodes[0].Deleting))
+				}
+				return l
+			},
+			Signature: func(raw json.RawMessage, impl any) string { return "existing" },
+		},
 		{
 			Name: "c01.pass",
 			Doc:  "whole real Provisioner.Schedule passes on generated clusters (catalogs, NodePools, existing/in-flight/deleting/unmanaged nodes with bound pods, daemonsets, pending pods with selectors/affinity/preferences/tolerations/host ports); every placement judged by the Kubernetes admissibility spec",
